@@ -72,12 +72,14 @@ type BuildCase struct {
 	// recursive
 	Tree *TreeSpec `json:"tree"`
 	// variants
-	Orders [][]int `json:"orders"` // permutations of Entries
-	Frags  [][]int `json:"frags"`  // fragment-size cycles for the source reader
-	Repeat int     `json:"repeat"` // repeat the plain build this many extra times
-	Faults bool    `json:"faults"` // inject every single write-open / commit failure
-	Ref    bool    `json:"ref"`    // compare with the reference importer / HAMT
-	MixV0  bool    `json:"mixv0"`  // directories: mixed CIDv0 / CIDv1 entry links
+	Orders      [][]int `json:"orders"`      // permutations of Entries
+	Frags       [][]int `json:"frags"`       // fragment-size cycles for the source reader
+	Repeat      int     `json:"repeat"`      // repeat the plain build this many extra times
+	Faults      bool    `json:"faults"`      // inject every single write-open / commit failure
+	Ref         bool    `json:"ref"`         // compare with the reference importer / HAMT
+	MixV0       bool    `json:"mixv0"`       // directories: mixed CIDv0 / CIDv1 entry links
+	FaultSample int     `json:"faultsample"` // with Faults: inject only at this many evenly spread positions (0 = every position)
+	Hasher      uint64  `json:"hasher"`      // sharded directories: name hasher (0 = murmur3)
 }
 
 type fragReader struct {
@@ -227,7 +229,7 @@ func oneBuild(bc *BuildCase, v buildVariant, cc *caseClasses, content []byte, tr
 			lnk, size, err = builder.BuildUnixFSSymlink(bc.Target, ls)
 		case "dir", "sharded", "quickdir":
 			dc := &DirCase{Builder: map[string]string{"dir": "dir", "sharded": "sharded", "quickdir": "quick"}[bc.What],
-				Fanout: bc.Fanout, Universe: bc.Universe, Entries: v.order, MixV0: bc.MixV0}
+				Fanout: bc.Fanout, Universe: bc.Universe, Entries: v.order, MixV0: bc.MixV0, Hasher: bc.Hasher}
 			dc.Links = make([]int, len(v.order))
 			for i, id := range v.order {
 				dc.Links[i] = id % nTargets
@@ -347,10 +349,23 @@ func runBuildCase(bc *BuildCase, tr *Tr) error {
 	}
 	if bc.Faults {
 		nOpens, nCommits := st.opens, len(st.commits)
-		for k := 1; k <= nOpens; k++ {
+		pick := func(n int) []int {
+			var ks []int
+			if bc.FaultSample <= 0 || n <= bc.FaultSample {
+				for k := 1; k <= n; k++ {
+					ks = append(ks, k)
+				}
+				return ks
+			}
+			for i := 0; i < bc.FaultSample; i++ {
+				ks = append(ks, 1+i*(n-1)/(bc.FaultSample-1))
+			}
+			return ks
+		}
+		for _, k := range pick(nOpens) {
 			emit(buildVariant{input: 1, order: bc.Entries, failOpen: k, tag: fmt.Sprintf("failopen-%d", k)})
 		}
-		for k := 1; k <= nCommits; k++ {
+		for _, k := range pick(nCommits) {
 			emit(buildVariant{input: 1, order: bc.Entries, failCommit: k, tag: fmt.Sprintf("failcommit-%d", k)})
 		}
 	}
@@ -457,7 +472,7 @@ func randomTree(r *rand.Rand, depth int, allowFifo bool) *TreeSpec {
 		case k == 3 && depth < 2:
 			c = randomTree(r, depth+1, allowFifo)
 		case k == 4:
-			c = &TreeSpec{Kind: "symlink", Target: []string{"a", "../up", "/abs/path", "dangling/nowhere", "ü"}[r.Intn(5)]}
+			c = &TreeSpec{Kind: "symlink", Target: []string{"a", "../up", "/abs/path", "dangling/nowhere", "ü", "./a", "sub/", "a//b", "x/../y", "/abs/dangling ü/."}[r.Intn(10)]}
 		case k == 5 && allowFifo && r.Intn(3) == 0:
 			c = &TreeSpec{Kind: "fifo"}
 		default:
@@ -525,6 +540,18 @@ func init() {
 							return err
 						}
 					}
+				}
+			}
+		case "deep":
+			// narrow widths with many chunks: trees of 8..10 levels
+			for _, nw := range [][2]int{{127, 2}, {128, 2}, {129, 2}, {130, 2}, {257, 2}, {513, 2}, {730, 3}, {2188, 3}} {
+				if nw[0] > *maxN {
+					continue
+				}
+				bc := &BuildCase{Fam: "build", ID: fmt.Sprintf("deep-%d-%d", nw[0], nw[1]), What: "file", Len: nw[0], Chunker: "size-1", W: nw[1],
+					Content: "random", Seed: int64(nw[0]), Ref: true}
+				if err := runBuildCase(bc, tr); err != nil {
+					return err
 				}
 			}
 		case "dedup":
@@ -610,6 +637,29 @@ func init() {
 					}
 				}
 			}
+		case "hashers":
+			// the sharded builder with other name hashers than murmur3 (its API takes any multihash code): same entries, many orders
+			for _, hs := range []uint64{0x12, 0x13, 0x11} {
+				for _, f := range []int{16, 256} {
+					u := mineUniverse(f, "plain")
+					ids := []int{1, 2, 3, 4, 5, 6, 7, 8}
+					bc := &BuildCase{Fam: "build", ID: fmt.Sprintf("hasher-%x-%d", hs, f), What: "sharded", Fanout: f, Universe: u, Entries: ids,
+						Orders: someOrders(ids, *orders, r), Repeat: *repeat, Hasher: hs}
+					if err := runBuildCase(bc, tr); err != nil {
+						return err
+					}
+				}
+			}
+			// fanouts above 256: two child shards whose bucket indices agree in their low byte (names 1,2 and 3,4), many runs
+			for _, f := range []int{512, 1024} {
+				u := mineUniverse(f, "plain")
+				ids := []int{1, 2, 3, 4}
+				bc := &BuildCase{Fam: "build", ID: fmt.Sprintf("congruent-%d", f), What: "sharded", Fanout: f, Universe: u, Entries: ids,
+					Orders: someOrders(ids, *orders, r), Repeat: 8 * *repeat}
+				if err := runBuildCase(bc, tr); err != nil {
+					return err
+				}
+			}
 		case "mixdir":
 			// directories whose size estimate is within 1% of the auto-shard threshold, with entry links of two
 			// different lengths (CIDv0 / CIDv1): the same entries in several orders and repeated (map-ordered) builds
@@ -631,6 +681,10 @@ func init() {
 				for _, what := range []string{"dir", "quickdir"} {
 					bc := &BuildCase{Fam: "build", ID: fmt.Sprintf("mixdir-%s-%d", what, n), What: what, Universe: u, Entries: ids,
 						Orders: [][]int{rot, rev}, Repeat: *repeat, MixV0: true}
+					if *faults && what == "dir" && n == 1950 {
+						// an automatically sharded directory (hundreds of shard blocks): transient write failures at sampled positions
+						bc.Orders, bc.Repeat, bc.Faults, bc.FaultSample = nil, 0, true, 7
+					}
 					if err := runBuildCase(bc, tr); err != nil {
 						return err
 					}
